@@ -144,6 +144,8 @@ class Chooser:
         from hypothesis import strategies as st
         seq = list(seq)
         if max_size is None: max_size = len(seq)
+        if not seq:
+            return self._next(label, lambda: [], [])
         def make():
             idx = self.data.draw(st.lists(st.integers(0, len(seq) - 1), min_size=min_size,
                                           max_size=max_size, unique=True), label=label)
